@@ -102,6 +102,22 @@ def probe_partition(system, api, names):
     return fails
 
 
+def probe_verdict(system, verdict, names):
+    """soundness and closure of the analytic set the toolbox chose (hook H1 / internal pipeline), for runs in which
+    analysis() then failed to return a partition"""
+    fails = []
+    offs, n = U.offsets(system)
+    analytic = set(gi for gi in range(n) if verdict[gi])
+    for gi in sorted(analytic):
+        for e, o in zip(system["entries"], offs):
+            if gi == o + e["order"] - 1 and e["kind"] == "ode" and not affine_cc(system, e["rhs"]):
+                fails.append(("sound", "%s is chosen for the analytical solver but its equation is not linear with constant coefficients: %s" % (names[gi], U.rhs_str(system, e["rhs"]))))
+        for w in deps_of(system, gi):
+            if w not in analytic:
+                fails.append(("closed", "%s is chosen for the analytical solver but depends on %s which is not" % (names[gi], names[w])))
+    return fails
+
+
 def gen_graph_case(rng, n):
     m = [rng.random() < 0.7 for _ in range(n)]
     E = []
@@ -183,6 +199,9 @@ def run(ctx):
         elif "trace" in r and r["trace"]["x"] == names:
             verdict = [bool(r["trace"]["verdict"][nm]) for nm in names]
             dist["verdict_source"]["trace"] += 1
+            for key, what in probe_verdict(s, verdict, names):
+                probe_failures.append({"key": "%s (no partition returned: %s): %s" % (key, api.get("outcome"), C.stable_hash(t["indict"])),
+                                       "what": what + "; analysis() then fails with %s | input %s" % (api.get("outcome"), t["indict"]["dynamics"]), "replay": {"indict": t["indict"], "system": s, "source": "trace"}})
         elif "verdict" in r.get("internal", {}) and r["internal"]["x"] == names and not r["internal"].get("inhomogeneous_higher_order"):
             verdict = r["internal"]["verdict"]
             dist["verdict_source"]["internal"] += 1
@@ -266,6 +285,11 @@ def replay(payload):
         r = C.run_tasks([{"fn": "sysimpl.run_verdict", "indict": rp["indict"], "api_timeout": 60, "timeout": 90}], timeout=90)[0]
         api = r.get("api", {})
         if api.get("outcome") != "Ok":
+            s = rp["system"]
+            names = [U.var_name(s, gi, "__d") for gi in range(U.offsets(s)[1])]
+            if "trace" in r and r["trace"]["x"] == names:
+                f = probe_verdict(s, [bool(r["trace"]["verdict"][nm]) for nm in names], names)
+                return (not f), "analysis fails with %s; chosen analytic set: %s" % (api.get("outcome"), f or "sound and closed")
             return True, "analysis no longer returns a result (%s)" % api.get("outcome")
         s = rp["system"]
         names = [U.var_name(s, gi, "__d") for gi in range(U.offsets(s)[1])]
